@@ -1,7 +1,8 @@
 ---- MODULE RouteActionRetryTrace ----
 (* Trace validation of real requests through the in-process MOSN against RouteActionRetry (C17, retry half).
    One run = one downstream request under a TLC-enumerated policy and outcome script:
-     run{pol,script,nhosts,g,t}   route policy, script, hosts of the cluster, configured global / per-try timeout (ms)
+     run{pol,script,nhosts,g,t,gap}  route policy, script, hosts of the cluster, configured global / per-try timeout (ms); gap =
+                                  longest stretch (ms) this process was not scheduled during the run (watchdog)
      tmo{g,t}                     effective timeouts the proxy computed (hook ds.timeout)
      att{host,res,at}             an upstream attempt handed to the pool of `host` (hook us.attempt), ms since the run began
      rcv{path,hdr,orig}           what the host of that attempt received (scripted host log)
@@ -12,9 +13,13 @@
    503 into a per-try timeout: then the per-try timeout row applies). *)
 EXTENDS RouteActionRetry, VTrace
 
-VARIABLES nh, cg, ct, attAt, firstAt,
+VARIABLES nh, cg, ct, attAt, firstAt, gap,
           act      \* the route's request / response actions of the run and the original request (RouteAction.tla shapes)
-tvars == <<vars, nh, cg, ct, attAt, firstAt, act, l>>
+tvars == <<vars, nh, cg, ct, attAt, firstAt, gap, act, l>>
+
+(* the effective timeout bounds the whole request (RouteActionRetry!WithinGlobalTimeout), measured from the first attempt:
+   timers and goroutines of a loaded machine run late, by no more than this *)
+Slack == 200 + 2 * gap
 
 (* the meaning of the actions is RouteAction's *)
 RA == INSTANCE RouteAction WITH Family <- "none", Defects <- {}, Big <- TRUE, c <- act
@@ -25,6 +30,7 @@ SameHdr(got, want) == \A k \in RA!Names : got[k] = want[k]
 
 TraceInit == /\ l = 1 /\ pol = [on |-> FALSE, n |-> 0, codes |-> <<>>] /\ script = <<>> /\ att = 0 /\ rem = 0 /\ st = "none"
              /\ last = "none" /\ hosts = <<>> /\ reply = 0 /\ nh = 0 /\ cg = 0 /\ ct = 0 /\ attAt = 0 /\ firstAt = 0 /\ applied = 0 /\ act = NoAct
+             /\ clock = 0 /\ deadline = 0 /\ gap = 0
 
 (* "rclose": an HTTP/1 host closed the connection in an orderly way before answering (reset reason UpstreamReset).
    The statement's "termination" is bound to the abnormal termination (reason ConnectionTermination); for the orderly
@@ -36,11 +42,12 @@ Must(p, o) == o # "rclose" /\ Retryable(p, o)
 TRun == /\ IsEvent("run")
         /\ pol' = Ev.pol /\ script' = Ev.script /\ nh' = Ev.nhosts /\ cg' = Ev.g /\ ct' = Ev.t
         /\ att' = 0 /\ rem' = 0 /\ st' = "run" /\ last' = "none" /\ hosts' = <<>> /\ reply' = 0 /\ attAt' = 0 /\ firstAt' = 0 /\ applied' = 0 /\ act' = Ev.act
+        /\ clock' = 0 /\ deadline' = 0 /\ gap' = IF Has(Ev, "gap") THEN Ev.gap ELSE 0
 
 TTmo == /\ IsEvent("tmo")
         /\ Expect(Ev.g = cg, "effective-global-timeout")
         /\ Expect(Ev.t = (IF ct >= cg THEN 0 ELSE ct), "effective-per-try-timeout")
-        /\ UNCHANGED <<vars, nh, cg, ct, attAt, firstAt, act>>
+        /\ UNCHANGED <<vars, nh, cg, ct, attAt, firstAt, gap, act>>
 
 TAtt == /\ IsEvent("att")
         /\ Expect(reply = 0, "attempt-after-reply-started")
@@ -49,7 +56,8 @@ TAtt == /\ IsEvent("att")
         /\ Expect(att = 0 \/ nh < 2 \/ Ev.host # hosts[Len(hosts)], "retry-on-same-host")
         /\ att' = att + 1 /\ hosts' = Append(hosts, Ev.host) /\ last' = "pending" /\ attAt' = Ev.at
         /\ firstAt' = IF att = 0 THEN Ev.at ELSE firstAt
-        /\ UNCHANGED <<pol, script, rem, st, reply, nh, cg, ct, applied, act>>
+        /\ Expect(att = 0 \/ Ev.at - firstAt <= cg + Slack, "attempt-started-after-global-timeout")
+        /\ UNCHANGED <<pol, script, rem, st, reply, nh, cg, ct, applied, act, clock, deadline, gap>>
 
 (* what the host of the current attempt received: EVERY attempt, first or retried, whichever host, carries exactly
    Sem(actions, original request): the actions are applied once, relative to the original request *)
@@ -65,17 +73,18 @@ TRcv == /\ IsEvent("rcv")
            IN /\ Expect(SameHdr(Ev.hdr, wantH), Which \o (IF againH THEN "request-headers-applied-again" ELSE "request-headers"))
               /\ Expect(Ev.path = wantP, Which \o (IF againP THEN "path-rewritten-again" ELSE "path-rewrite"))
               /\ Expect(Ev.orig = (IF wantP # act.path THEN act.path ELSE <<>>), Which \o "original-path-header")
-        /\ UNCHANGED <<vars, nh, cg, ct, attAt, firstAt, act>>
+        /\ UNCHANGED <<vars, nh, cg, ct, attAt, firstAt, gap, act>>
 
 TOut == /\ IsEvent("out")
         /\ Expect(Ev.o # "ptmo" \/ (ct > 0 /\ Ev.at - attAt >= ct - 2), "per-try-timeout-fired-early")
         /\ Expect(Ev.o # "gtmo" \/ Ev.at - firstAt >= cg - 2, "global-timeout-fired-early")
         /\ last' = Ev.o
-        /\ UNCHANGED <<pol, script, att, rem, st, hosts, reply, nh, cg, ct, attAt, firstAt, applied, act>>
+        /\ UNCHANGED <<pol, script, att, rem, st, hosts, reply, nh, cg, ct, attAt, firstAt, applied, act, clock, deadline, gap>>
 
 TReply == /\ IsEvent("reply")
           /\ reply' = IF Ev.code = 0 THEN 1 ELSE Ev.code
-          /\ UNCHANGED <<pol, script, att, rem, st, last, hosts, nh, cg, ct, attAt, firstAt, applied, act>>
+          /\ Expect(att = 0 \/ ~Has(Ev, "at") \/ Ev.at - firstAt <= cg + Slack, "reply-later-than-global-timeout")
+          /\ UNCHANGED <<pol, script, att, rem, st, last, hosts, nh, cg, ct, attAt, firstAt, applied, act, clock, deadline, gap>>
 
 (* a retry that the table asks for may be pre-empted only by the global timeout (runs with a short one) *)
 RetryDue == att >= 1 /\ att < 1 + Budget(pol) /\ Known(last) /\ Must(pol, last)
@@ -90,7 +99,7 @@ TFin == /\ IsEvent("fin")
         /\ Expect(Ev.kind # "response" \/ last \notin Responses \/ Ev.status # Code(last)
                   \/ SameHdr(Ev.down, RA!SemHdr(act.rlv, act.rhin, [src |-> act.src, rsrc |-> act.rsrc])), "reply:response-headers")
         /\ st' = "fin"
-        /\ UNCHANGED <<pol, script, att, rem, last, hosts, reply, nh, cg, ct, attAt, firstAt, applied, act>>
+        /\ UNCHANGED <<pol, script, att, rem, last, hosts, reply, nh, cg, ct, attAt, firstAt, applied, act, clock, deadline, gap>>
 
 TraceNext == TRun \/ TTmo \/ TAtt \/ TRcv \/ TOut \/ TReply \/ TFin
 TraceSpec == TraceInit /\ [][TraceNext]_tvars
